@@ -27,6 +27,7 @@ type c04l struct {
 	dupKey   bool
 	file     []byte
 	db       *DB
+	dbp      *DB // the same file opened with Prefetch(true), as the server does (epoch.go)
 	dir      string
 	caseOps  []string
 }
@@ -45,7 +46,9 @@ func c04lWidth(fileSize uint64) int {
 	return w
 }
 
-func (in *c04l) insert(b *Builder, k, v []byte) error { return b.Insert(k, binary.LittleEndian.Uint64(v)) }
+func (in *c04l) insert(b *Builder, k, v []byte) error {
+	return b.Insert(k, binary.LittleEndian.Uint64(v))
+}
 
 func (in *c04l) sealWith(order [][2][]byte) ([]byte, string) {
 	dir, _ := os.MkdirTemp(in.dir, "b")
@@ -146,6 +149,11 @@ func (in *c04l) exec(line string) string {
 			return fmt.Sprintf("file %d %016x open=false", len(data), xxhash.Sum64(data))
 		}
 		in.db = db
+		in.dbp = nil
+		if dbp, err := Open(bytes.NewReader(data)); err == nil {
+			dbp.Prefetch(true)
+			in.dbp = dbp
+		}
 		in.s.Count("sealed-ok")
 		return fmt.Sprintf("file %d %016x open=true", len(data), xxhash.Sum64(data))
 	case "lookup":
@@ -163,6 +171,24 @@ func (in *c04l) exec(line string) string {
 			}
 			return "found " + zz.Hex(c04lLE(v, c04lWidth(in.fileSize)))
 		})
+		// the prefetching reader (what the server uses) answers what the plain reader answers
+		if in.dbp != nil {
+			rp := zz.Guard(func() string {
+				v, err := in.dbp.Lookup(k)
+				if err != nil {
+					if err == ErrNotFound {
+						return "notfound"
+					}
+					return "err"
+				}
+				return "found " + zz.Hex(c04lLE(v, c04lWidth(in.fileSize)))
+			})
+			in.s.Count("lookup-prefetch-twin")
+			if rp != r {
+				in.s.Violation(fmt.Sprintf("Lookup(%s) with Prefetch(true) answers %q, without it %q", w[1], rp, r),
+					"C04:compactindex:prefetch-differs", in.s.Replay(in.caseOps))
+			}
+		}
 		if want, ok := in.inserted[string(k)]; ok {
 			if r != "found "+zz.Hex(want) {
 				in.s.Violation(fmt.Sprintf("inserted key not returned with its value: got %q want %s", r, zz.Hex(want)),
